@@ -7,3 +7,23 @@ import (
 type Templater interface {
 	Apply(request *gun.RequestParts, variables map[string]any, scenarioName, stepName string) error
 }
+
+const (
+	urlTemplate    = "url"
+	headerTemplate = "header"
+	bodyTemplate   = "body"
+)
+
+// templateKey identifies a cached template. A struct (not a joined string) keeps the URL and
+// body templates apart from a header that happens to be named "url" or "body", and scenario/step
+// names containing the separator apart from each other.
+type templateKey struct {
+	scenario, step, kind, name string
+}
+
+func (k templateKey) String() string {
+	if k.kind == headerTemplate {
+		return k.scenario + "_" + k.step + "_" + k.name
+	}
+	return k.scenario + "_" + k.step + "_" + k.kind
+}
